@@ -263,6 +263,7 @@ func genCtSpec(t *rapid.T, label string, degs []int, maxDrop int) CtSpec {
 		Deg:   degs[rapid.IntRange(0, len(degs)-1).Draw(t, label+"_deg")],
 		Drop:  rapid.IntRange(0, maxDrop).Draw(t, label+"_drop"),
 		Scale: rapid.IntRange(0, 3).Draw(t, label+"_scale"),
+		Dims:  []int{0, 0, 0, 0, 1, 3}[rapid.IntRange(0, 5).Draw(t, label+"_dims")],
 	}
 }
 
@@ -348,6 +349,9 @@ func genEvalCase(t *rapid.T, scheme string, only ...string) EvalCase {
 			c.B.Kind = kinds[rapid.IntRange(0, len(kinds)-1).Draw(t, "bKind")]
 		}
 		c.B.CtSpec = genCtSpec(t, "b", []int{1, 1, 1, 2}, nQ-1)
+		// IsBatched must agree between the operands (else the call is rejected): mostly equal, sometimes not
+		c.A.Unbatched = rapid.IntRange(0, 7).Draw(t, "unbatched") == 7
+		c.B.Unbatched = c.A.Unbatched != (rapid.IntRange(0, 9).Draw(t, "batchMismatch") == 9)
 		if c.B.Kind == "pt" {
 			c.B.Deg = 0
 		}
